@@ -864,9 +864,9 @@ def c19_oracle(c, r):
                 continue
             off += len(call)
             # a frame ends where a push ends (Flush runs under the writer mutex), except when the writer
-            # itself closes a frame because it reached the frame size limit (4 MiB: tens of thousands of
+            # itself closes a frame because it reached the frame size limit (4 MiB: many thousands of
             # these data points) in the middle of a large batch
-            if off not in ends and len(call) < 20000:
+            if off not in ends and len(call) < 5000:
                 return ('frame-ends-inside-a-batch', e, off)
     # acknowledgements (exporters whose bookkeeping is visible)
     for e, x in enumerate(r['exporters']):
